@@ -7,6 +7,39 @@ use std::time::Duration;
 
 pub struct SledDB(Sled);
 
+/// Verification hook (inert unless armed): process-global fail-after-N counter for storage writes.
+#[cfg(zerokit_verif)]
+pub mod verif_hooks {
+    use std::sync::atomic::{AtomicBool, AtomicI64, AtomicU64, Ordering};
+
+    /// number of storage operations (put / put_batch / close) that still succeed before the
+    /// injected failure; negative = disarmed
+    pub static FAIL_AFTER: AtomicI64 = AtomicI64::new(-1);
+    /// when set, every operation after the first injected failure fails too
+    pub static STICKY: AtomicBool = AtomicBool::new(false);
+    /// storage operations attempted so far
+    pub static OPS: AtomicU64 = AtomicU64::new(0);
+    /// injected failures so far
+    pub static FIRED: AtomicU64 = AtomicU64::new(0);
+
+    pub fn should_fail() -> bool {
+        OPS.fetch_add(1, Ordering::SeqCst);
+        let left = FAIL_AFTER.load(Ordering::SeqCst);
+        if left < 0 {
+            return false;
+        }
+        if left == 0 {
+            if !STICKY.load(Ordering::SeqCst) {
+                FAIL_AFTER.store(-1, Ordering::SeqCst);
+            }
+            FIRED.fetch_add(1, Ordering::SeqCst);
+            return true;
+        }
+        FAIL_AFTER.store(left - 1, Ordering::SeqCst);
+        false
+    }
+}
+
 impl SledDB {
     fn new_with_tries(config: <SledDB as Database>::Config, tries: u32) -> PmtreeResult<Self> {
         // If we've tried more than 10 times, we give up and return an error.
@@ -68,6 +101,12 @@ impl Database for SledDB {
     }
 
     fn close(&mut self) -> PmtreeResult<()> {
+        #[cfg(zerokit_verif)]
+        if verif_hooks::should_fail() {
+            return Err(PmtreeErrorKind::DatabaseError(
+                DatabaseErrorKind::CustomError("Cannot flush database".to_string()),
+            ));
+        }
         let _ = self.0.flush().map_err(|_| {
             PmtreeErrorKind::DatabaseError(DatabaseErrorKind::CustomError(
                 "Cannot flush database".to_string(),
@@ -84,6 +123,10 @@ impl Database for SledDB {
     }
 
     fn put(&mut self, key: DBKey, value: Value) -> PmtreeResult<()> {
+        #[cfg(zerokit_verif)]
+        if verif_hooks::should_fail() {
+            return Err(PmtreeErrorKind::TreeError(TreeErrorKind::InvalidKey));
+        }
         match self.0.insert(key, value) {
             Ok(_) => Ok(()),
             Err(_e) => Err(PmtreeErrorKind::TreeError(TreeErrorKind::InvalidKey)),
@@ -91,6 +134,10 @@ impl Database for SledDB {
     }
 
     fn put_batch(&mut self, subtree: HashMap<DBKey, Value>) -> PmtreeResult<()> {
+        #[cfg(zerokit_verif)]
+        if verif_hooks::should_fail() {
+            return Err(PmtreeErrorKind::TreeError(TreeErrorKind::InvalidKey));
+        }
         let mut batch = sled::Batch::default();
 
         for (key, value) in subtree {
